@@ -288,8 +288,10 @@ PROPS = {
           "amounts from 1 unit to 1000x the reserve; an evaluation is one message (op line + full ledger dump); non-trivial = a message line",
   "trusted_base": ["cosmos-sdk x/bank and x/distribution keepers (modelled as the ledger Model/Ledger)",
                    "the pool-model results on each op line are produced by the engine calling the real pool structs' methods on private copies (pool math is C04)"],
-  "assumptions": ["pool math is out of scope: theorems hold for any pool-math results; the equality pool account = reserves + donations needs the history to "
-                  "stay inside the pool-math contract (ghost flag `clean`, characterised by contract_swap/contract_exit/contract_join)",
+  "assumptions": ["Props.C02: theorems hold for any pool-math results; the equality pool account = reserves + donations needs the history to "
+                  "stay inside the pool-math contract (ghost flag `clean`, characterised by contract_swap/contract_exit/contract_join); "
+                  "Props.C02C04 discharges the contract for histories whose pool-math results are those of Model/Gamm (mathIsGamm): inside the "
+                  "contract iff no balancer exact-in swap answered with the entire out-reserve (iff Pow <= 0, F13), never with equal weights",
                   "tx atomicity (failed message = no state change) is the cache-context discipline of baseapp, reproduced by the engine"],
   "explanation": "trace refinement: the Lean model is the bank ledger + pool-record bookkeeping of the gamm keeper and the poolmanager router, replayed on every "
                  "message with the pool-math results of that step and compared with ALL balances, supplies and pool records of the real chain; theorems by induction "
@@ -399,8 +401,8 @@ PROPS = {
  },
  "C04": {
   "modules": ["OsmoVerif.Props.C04", "OsmoVerif.Props.TieGenGammMath", "OsmoVerif.Props.C02C04", "OsmoVerif.Props.C04Real",
-              "OsmoVerif.Props.C04Seq"],
-  "min_theorems": 150,
+              "OsmoVerif.Props.C04Seq", "OsmoVerif.Props.C04Stable"],
+  "min_theorems": 170,
   "fingerprints": ["GammMath.*", "Osmomath.Pow", "Osmomath.PowApprox", "Osmomath.AbsDifferenceWithSign", "Osmomath.BinarySearch*", "Osmomath.ErrTolerance_*"],
   "engines": [{"name": "gammmath", "kind": "pure", "n": {"quick": 6000, "thorough": 150000}, "shards": {"quick": 4, "thorough": 16}}],
   "rule": "in-memory balancer and stableswap pools (2-8 assets; reserves 1..10^30 balanced / strongly unbalanced / tiny; user weights 1..2^20-1, "
